@@ -43,6 +43,16 @@ def c02_probes() -> list[Item]:
         it = _p(nm, body, inputs=[{"cd0": d, "cd1": 0} for d in dests] + [{"cd0": 0, "cd1": 0}, {"cd0": 1, "cd1": 0}, {"cd0": 1 << 255, "cd1": 0}, {"cd0": len(code), "cd1": 0}])
         it.cli = ("--symbolic-jump",)
         out.append(it)
+    # a CREATE2 onto an address that already holds an account fails (0 on the stack) and the creator goes on: both the colliding
+    # and the fresh creation are outcomes with paths of their own
+    init0 = assemble([("PUSH", 0), ("PUSH", 0), "RETURN"])
+
+    def create2(salt_code):
+        return [("PUSHN", len(init0), int.from_bytes(init0, "big")), ("PUSH", 0), "MSTORE"] + salt_code + [("PUSH", len(init0)), ("PUSH", 32 - len(init0)), ("PUSH", 0), "CREATE2"]
+
+    body = create2([("PUSH", 7)]) + ["POP"] + [("PUSH", 0), "CALLDATALOAD", ("PUSHL", "fresh"), "JUMPI"] + create2([("PUSH", 7)]) + RET + \
+        [("LABEL", "fresh")] + create2([("PUSH", 9)]) + ["ISZERO", "ISZERO"] + RET
+    out.append(_p("create2-address-collision", body, inputs=[{"cd0": 0, "cd1": 0}, {"cd0": 1, "cd1": 0}, {"cd0": 1 << 255, "cd1": 0}]))
     # the two-term form is the documented assumption (hashes lie below 2^256 - 2^64): no input can take the branch
     body = H + H + [("PUSH", 5), "ADD", "LT", ("PUSHL", "wrap"), "JUMPI", ("PUSH", 1)] + RET + [("LABEL", "wrap"), ("PUSH", 2)] + RET
     out.append(_p("hash-plus-const-wraps", body, inputs=[{"cd0": 0, "cd1": 3}, {"cd0": 7, "cd1": 0}]))
